@@ -44,8 +44,9 @@ func runC06(c *an.Ctx) {
 	c.Min("R06.4", 2)
 }
 
-func r061(c *an.Ctx) {
-	const rule = "R06.1"
+func r061(c *an.Ctx) { r061as(c, "R06.1") }
+
+func r061as(c *an.Ctx, rule string) {
 	fn := mustFunc(c, rule, "pkg/masks", "ResponseFilter", "FilterClone")
 	if fn == nil {
 		return
